@@ -36,6 +36,9 @@ def gen_name(rng: random.Random, existing: list[str]) -> str:
             return base.rsplit('/', rng.randint(1, base.count('/')))[0]
         if rng.random() < 0.5 or base.upper() == 'INBOX':
             return base
+        if rng.random() < 0.3:
+            # a sibling whose name begins with the whole of this one
+            return base + rng.choice(['s', '&b', ' ', '-1', 'x y'])
         return base + '/' + rng.choice(PARTS)
     depth = rng.choice([1, 1, 1, 2, 3, 3, 4])
     parts = [rng.choice(PARTS) for _ in range(depth)]
